@@ -106,6 +106,14 @@ fn key_bytes_sub(ctx: &Ctx) -> Sub {
             }
         }
     }
+    // RSA keys in their other input forms (PEM of both sizes, public and private; the official vectors carry PEM):
+    // the modulus size separates signing keys from sealing keys on the PEM path too
+    for (label, bytes) in c08::key_candidates(1, false) {
+        let is_rsa = KKS.iter().any(|kk| c08::model(1, *kk, &bytes) != Verdict::Reject);
+        if is_rsa && !raws.iter().any(|r| r.3 == bytes) {
+            raws.push((label, 1, "rsa-key-form", bytes));
+        }
+    }
     let raws = Arc::new(raws);
     let n = raws.len() as u64;
     Sub::new(
